@@ -9,6 +9,7 @@ import (
 	"strconv"
 	"strings"
 	"sync"
+	"time"
 
 	"github.com/gauss-project/aurorafs/pkg/aurora"
 	"github.com/gauss-project/aurorafs/pkg/boson"
@@ -115,9 +116,18 @@ func (s *stream) ResponseHeaders() p2p.Headers { return nil }
 type streamer struct {
 	mu   sync.Mutex
 	sent []sent
+	find func(to int) p2p.Stream // scripted findGroup neighbour (set by the `find` op)
 }
 
 func (s *streamer) open(to boson.Address, relay bool, name string) (p2p.Stream, error) {
+	if name == "findGroup" {
+		s.mu.Lock()
+		f := s.find
+		s.mu.Unlock()
+		if f != nil {
+			return f(idxOf(to)), nil
+		}
+	}
 	if name != "multicast" {
 		return nil, fmt.Errorf("unexpected stream %s", name)
 	}
@@ -146,6 +156,63 @@ var (
 	theKad = kadMock.NewMockKademlia()
 	theLog = logging.New(io.Discard, 0)
 )
+
+/* ---------- scripted findGroup neighbour ---------- */
+
+// seg: while the findGroup request to neighbour v is in flight, the peers hs complete a handshake
+// with us (Group.add(x, true), what updatePeerGroupsJoin does); then v answers with the peers ans.
+type seg struct {
+	v       int
+	hs, ans []int
+}
+
+func parseList(s string) ([]int, bool) {
+	if s == "-" {
+		return nil, true
+	}
+	var r []int
+	for _, t := range strings.Split(s, ",") {
+		v, ok := atoi(t)
+		if !ok || v >= maxPeers {
+			return nil, false
+		}
+		r = append(r, v)
+	}
+	return r, true
+}
+
+func parseSeg(s string) (seg, bool) {
+	f := strings.Split(s, "/")
+	if len(f) != 3 {
+		return seg{}, false
+	}
+	v, ok := atoi(f[0])
+	h, ok1 := parseList(f[1])
+	a, ok2 := parseList(f[2])
+	return seg{v, h, a}, ok && ok1 && ok2 && v < maxPeers
+}
+
+// findStream is the client side of one findGroup stream: the request is collected; the first Read
+// runs the neighbour (the rendezvous: everything it does happens while the request is in flight).
+type findStream struct {
+	to     int
+	req    bytes.Buffer
+	answer func(to int, req []byte) []byte
+	resp   *bytes.Reader
+}
+
+func (s *findStream) Write(p []byte) (int, error) { return s.req.Write(p) }
+func (s *findStream) Read(p []byte) (int, error) {
+	if s.resp == nil {
+		s.resp = bytes.NewReader(s.answer(s.to, s.req.Bytes()))
+	}
+	return s.resp.Read(p)
+}
+func (s *findStream) Close() error                 { return nil }
+func (s *findStream) FullClose() error             { return nil }
+func (s *findStream) Reset() error                 { return nil }
+func (s *findStream) Headers() p2p.Headers         { return nil }
+func (s *findStream) ResponseHeaders() p2p.Headers { return nil }
 
 /* ---------- runner ---------- */
 
@@ -625,8 +692,167 @@ func (rn *runner) Step(ctx *core.Ctx, op []string) string {
 		rn.notif[k] += notified
 		rn.fwd[k] += fwd
 		return "ok"
+	case op[0] == "find" && len(op) >= 3:
+		return rn.find(ctx, op)
+	case op[0] == "burst" && len(op) == 7:
+		return rn.burst(ctx, op)
 	}
 	return "bad-op"
+}
+
+// find: one real discovery round (Service.discover → doFindGroup) against scripted neighbours.
+// `find g kp v/h,…/a,… …`: option.KeepPingPeers = kp for the round; neighbour v, when asked, lets the
+// peers h handshake with us first (while the request is in flight) and answers with the peers a;
+// neighbours without a segment answer with no peers.
+func (rn *runner) find(ctx *core.Ctx, op []string) string {
+	g, ok := atoi(op[1])
+	kp, ok1 := atoi(op[2])
+	if !ok || !ok1 {
+		return "bad-op"
+	}
+	script := map[int]seg{}
+	for _, t := range op[3:] {
+		sg, ok := parseSeg(t)
+		if !ok {
+			return "bad-op"
+		}
+		if _, dup := script[sg.v]; !dup { // the first segment for a neighbour counts (List.find?)
+			script[sg.v] = sg
+		}
+	}
+	vg := rn.svc.VerifGetGroup(gidAddr(g))
+	if vg == nil {
+		return "nogroup"
+	}
+	what := strings.Join(op, " ")
+	rn.checkLists(ctx, vg, "before find")
+	var asked []string
+	var fails [][2]string // (clause, message) — reported from the Step goroutine
+	answer := func(to int, reqb []byte) []byte {
+		req := &pb.FindGroupReq{}
+		if err := protobuf.NewReader(bytes.NewReader(reqb)).ReadMsg(req); err != nil {
+			fails = append(fails, [2]string{"find-request-undecodable", fmt.Sprintf("%s: request to %d: %v", what, to, err)})
+		}
+		asked = append(asked, fmt.Sprintf("%d:%d", to, req.Limit))
+		// model-free: the request names self and all current members as already known (Paths).
+		// (The asked peer itself need not be a member any more: the loops run over BinPeers snapshots.)
+		ca, ka, _ := vg.Lists()
+		members := append(idxs(ca), idxs(ka)...)
+		var paths []int
+		for _, p := range req.Paths {
+			paths = append(paths, idxOf(boson.NewAddress(p)))
+		}
+		for _, m := range append([]int{0}, members...) {
+			if !has(paths, m) {
+				fails = append(fails, [2]string{"find-paths", fmt.Sprintf("%s: request to %d does not list %d in Paths", what, to, m)})
+			}
+		}
+		if !bytes.Equal(req.Gid, gidAddr(g).Bytes()) {
+			fails = append(fails, [2]string{"find-gid", fmt.Sprintf("%s: request to %d for another gid", what, to)})
+		}
+		sg := script[to]
+		for _, x := range sg.hs {
+			vg.Add(peerAddr(x), true) // handshake completes while our request is in flight
+		}
+		resp := &pb.FindGroupResp{}
+		if sc, scripted := script[to]; scripted {
+			for _, a := range sc.ans {
+				resp.Addresses = append(resp.Addresses, peerAddr(a).Bytes())
+			}
+		}
+		return wire2(resp)
+	}
+	rn.st.mu.Lock()
+	rn.st.find = func(to int) p2p.Stream { return &findStream{to: to, answer: answer} }
+	rn.st.mu.Unlock()
+	rn.svc.VerifDiscover(gidAddr(g), 0, kp)
+	rn.st.mu.Lock()
+	rn.st.find = nil
+	rn.st.sent = nil
+	rn.st.mu.Unlock()
+	rn.sp.drain()
+	for _, f := range fails {
+		ctx.Fail(f[0], "%s", f[1])
+	}
+	rn.checkLists(ctx, vg, what)
+	c, k, n := vg.Lists()
+	as := "-"
+	if len(asked) > 0 {
+		as = strings.Join(asked, ",")
+	}
+	return fmt.Sprintf("asked=%s c=%s k=%s n=%s", as, peersStr(c), peersStr(k), peersStr(n))
+}
+
+func wire2(m *pb.FindGroupResp) []byte {
+	b := &bytes.Buffer{}
+	_ = protobuf.NewWriter(b).WriteMsg(m)
+	return b.Bytes()
+}
+
+// burstGap: pause between the burst and the late duplicate (gcache applies capacity evictions from
+// its 1 s timer; the de-duplication window is one minute).
+const burstGap = 2200 * time.Millisecond
+
+// burst: `burst f o base n g f2` — n distinct messages (origin o, ids base…base+n-1, gid g) through the
+// real stream handler from neighbour f, a pause well inside the one-minute window, then a duplicate of
+// the FIRST message from neighbour f2.
+func (rn *runner) burst(ctx *core.Ctx, op []string) string {
+	f, ok := atoi(op[1])
+	o, ok1 := rn.originAddr(op[2])
+	base, ok2 := atoi(op[3])
+	n, ok3 := atoi(op[4])
+	g, ok4 := atoi(op[5])
+	f2, ok5 := atoi(op[6])
+	if !ok || !ok1 || !ok2 || !ok3 || !ok4 || !ok5 || f >= maxPeers || f2 >= maxPeers || len(o) == 0 || n == 0 || n > 5000 {
+		return "bad-op"
+	}
+	if rn.svc.VerifGetGroup(gidAddr(g)) == nil {
+		return "nogroup"
+	}
+	what := strings.Join(op, " ")
+	os := boson.NewAddress(o).String()
+	deliver := func(from, id int, late bool) (int, int) {
+		w := wire(&pb.MulticastMsg{Id: uint64(id), CreateTime: 7, Origin: o, Gid: gidAddr(g).Bytes(), Data: []byte{0xb5}})
+		if err := rn.hnd(context.Background(), p2p.Peer{Address: peerAddr(from)}, &stream{r: bytes.NewReader(w), w: &bytes.Buffer{}}); err != nil {
+			ctx.Fail("handler-error", "onMulticast returned %v", err)
+		}
+		notified, fwd := 0, 0
+		for _, e := range rn.sp.drain() {
+			if e.kind == "multicastMsg" {
+				notified++
+			}
+			if lc, ok := e.msg.(multicast.LogContent); ok && lc.Event == "multicast_deliver" {
+				fwd++
+			}
+		}
+		rn.st.mu.Lock()
+		rn.st.sent = nil
+		rn.st.mu.Unlock()
+		k := key{os, uint64(id)}
+		rn.notif[k] += notified
+		rn.fwd[k] += fwd
+		sfx := ""
+		if late {
+			sfx = "-window"
+		}
+		if rn.notif[k] > 1 {
+			ctx.Fail("deliver-twice"+sfx, "%s: subscribers notified %d times for origin=%d id=%d (duplicate from %d, inside the window)", what, rn.notif[k], idxOf(boson.NewAddress(o)), id, from)
+		}
+		if rn.fwd[k] > 1 {
+			ctx.Fail("forward-twice"+sfx, "%s: forwarding part ran %d times for origin=%d id=%d (duplicate from %d, inside the window)", what, rn.fwd[k], idxOf(boson.NewAddress(o)), id, from)
+		}
+		return notified, fwd
+	}
+	rn.sp.drain()
+	tn, tf := 0, 0
+	for i := 0; i < n; i++ {
+		a, b := deliver(f, base+i, false)
+		tn += a
+		tf += b
+	}
+	time.Sleep(burstGap)
+	dn, df := deliver(f2, base, true)
+	return fmt.Sprintf("notified=%d fwd=%d dup=%s%s", tn, tf, core.B(dn > 0), core.B(df > 0))
 }
 
 /* ---------- recording SubPub ---------- */
@@ -688,7 +914,21 @@ func (prop) Gen(r *core.Rand, tier string) []core.Case {
 		{ID: "fix-fallback", NT: true, Ops: []string{"group 1 known", "nbr 1 1", "nbr 2 1", "nbr 3 1", "add 1 1 1", "add 1 2 1", "add 1 3 1", "add 1 4 1", "on 1 5 1 0", "on 2 5 1 0", "mc 5 2 0", "mc 5 2 0",
 			"group 2 join", "add 2 5 1", "nbr 5 1", "add 2 5 1", "on 3 4 7 0", "lists 0", "add 0 1 1", "sub 0 1"}},
 		{ID: "fix-race", NT: true, Ops: []string{"group 0 join", "sub 0 1", "nbr 1 1", "add 0 1 1", "add 0 2 1", "race 1 4 1 0", "race 2 4 2 0", "race 1 4 3 0", "race 3 4 1 0", "seen 4 1", "on 1 4 1 0"}},
-		{ID: "fix-malformed", NT: false, Ops: []string{"lists 0", "add 0 1 1", "prune 0", "sub 0 1", "group 0 bogus", "add x 1 1", "on 1 2 3", "mc 1", "frob", "nbr 1 2", "seen 1 1", "on 1 2 3 0", "race 1 2 3 0"}},
+		{ID: "fix-malformed", NT: false, Ops: []string{"lists 0", "add 0 1 1", "prune 0", "sub 0 1", "group 0 bogus", "add x 1 1", "on 1 2 3", "mc 1", "frob", "nbr 1 2", "seen 1 1", "on 1 2 3 0", "race 1 2 3 0",
+			"find 0 3 1/-/2", "find 0", "find 0 x", "find 0 3 1/2", "find 0 3 1/a/2", "burst 1 - 5 3 0 2", "burst 1 2 5 0 0 2", "burst 1 2 5 3 0"}},
+		// a member handshakes while the findGroup request is in flight and the answer names it
+		// (seeded change C38-3: doFindGroup wrote answers straight into knownPeers): non-neighbour -> kept, neighbour -> connected
+		{ID: "fix-find-inflight", NT: true, Ops: []string{"group 0 join", "nbr 1 1", "add 0 1 1", "find 0 1000 1/2/2,3", "lists 0",
+			"nbr 4 1", "find 0 1000 1/4/4,5", "lists 0", "add 0 6 1", "find 0 1000 6/7/7 1/-/6,1", "lists 0", "find 0 1000 1/3,2/-", "find 0 1000", "lists 0"}},
+		// limit(): KeepPingPeers small — the round stops as soon as enough peers are kept; kept peers are asked after the connected ones
+		{ID: "fix-find-limit", NT: true, Ops: []string{"group 1 observe", "nbr 1 1", "nbr 2 1", "add 1 1 1", "add 1 2 1", "add 1 3 1", "find 1 1 1/4/4", "find 1 2 1/4/5 2/6/6", "lists 1",
+			"find 1 3 1/-/7 2/8/8 3/9/9,1", "lists 1", "find 1 0 1/-/9", "find 2 3 1/-/9"}},
+		// findGroup answers fill the known list beyond maxKnownPeers: pruneKnown at the end of the round
+		{ID: "fix-find-prune", NT: true, Ops: []string{"group 0 known", "nbr 1 1", "add 0 1 1", "find 0 1000 1/30/10,11,12,13,14,15,16,17,18,19,20,21", "find 0 1000 1/-/22,23,24,25,26,27,28,29,30,31,32,33", "lists 0"}},
+		// de-duplication entries live for the whole window: > 2 x 1024 cache entries, then a late duplicate of the first message
+		// (seeded change C38-4: gcache.New(1024) evicts least-recently-used entries regardless of expiry)
+		{ID: "fix-burst-window", NT: true, Ops: []string{"group 0 join", "sub 0 1", "nbr 1 1", "nbr 2 1", "add 0 1 1", "add 0 2 1", "add 0 3 1",
+			"burst 1 4 1000 1100 0 2", "seen 4 1000", "mc 4 1000 0"}},
 	}
 	// regression for the non-atomic de-duplication check (fixed: property=C38): before the repair about
 	// 1 in 250 of these concurrent duplicates was delivered twice, so 4000 of them expose it with high probability (a stress test: detection is probabilistic)
@@ -701,7 +941,7 @@ func (prop) Gen(r *core.Rand, tier string) []core.Case {
 	for i := 0; i < n; i++ {
 		rr := r.Fork()
 		var c core.Case
-		switch d := rr.Intn(20); {
+		switch d := rr.Intn(23); {
 		case d < 7:
 			c = memberCase(rr)
 		case d < 9:
@@ -710,8 +950,10 @@ func (prop) Gen(r *core.Rand, tier string) []core.Case {
 			c = floodCase(rr, false)
 		case d < 19:
 			c = floodCase(rr, true)
-		default:
+		case d < 20:
 			c = raceCase(rr)
+		default:
+			c = discCase(rr)
 		}
 		c.ID = fmt.Sprintf("g%d%s", i, c.ID)
 		cs = append(cs, c)
@@ -881,6 +1123,62 @@ func floodCase(r *core.Rand, fallback bool) core.Case {
 		}
 	}
 	c.NT = len(groups) > 0 && rep
+	return c
+}
+
+// discCase: membership over peers 1..8, then discovery rounds with scripted neighbours interleaved with membership ops.
+func discCase(r *core.Rand) core.Case {
+	c := core.Case{ID: "d"}
+	gt := []string{"join", "observe", "known"}
+	g := r.Intn(2)
+	c.Ops = append(c.Ops, fmt.Sprintf("group %d %s", g, gt[r.Intn(3)]))
+	for p := 1; p <= 8; p++ {
+		if r.Chance(55) {
+			c.Ops = append(c.Ops, fmt.Sprintf("nbr %d 1", p))
+		}
+	}
+	for k, n := 0, r.Range(1, 7); k < n; k++ {
+		c.Ops = append(c.Ops, fmt.Sprintf("add %d %d %s", g, r.Range(1, 8), b01(r.Chance(80))))
+	}
+	list := func(l []int) string {
+		if len(l) == 0 {
+			return "-"
+		}
+		var s []string
+		for _, x := range l {
+			s = append(s, strconv.Itoa(x))
+		}
+		return strings.Join(s, ",")
+	}
+	for k, n := 0, r.Range(1, 4); k < n; k++ {
+		kps := []int{1, 2, 3, 1000, 1000, 1000}
+		op := fmt.Sprintf("find %d %d", g, kps[r.Intn(len(kps))])
+		for sgs, ns := 0, r.Range(1, 3); sgs < ns; sgs++ {
+			v := r.Range(1, 8)
+			var hs, ans []int
+			for h, nh := 0, r.Intn(3); h < nh; h++ {
+				hs = append(hs, r.Range(1, 10))
+			}
+			for _, x := range hs {
+				if r.Chance(75) {
+					ans = append(ans, x) // the answer names the peer that just handshook
+					c.NT = true
+				}
+			}
+			for a, na := 0, r.Intn(4); a < na; a++ {
+				ans = append(ans, r.Range(1, 12))
+			}
+			op += fmt.Sprintf(" %d/%s/%s", v, list(hs), list(ans))
+		}
+		c.Ops = append(c.Ops, op)
+		if r.Chance(50) {
+			c.Ops = append(c.Ops, memberOp(r, g, 8))
+		}
+		if r.Chance(40) {
+			c.Ops = append(c.Ops, fmt.Sprintf("lists %d", g))
+		}
+	}
+	c.Ops = append(c.Ops, fmt.Sprintf("lists %d", g))
 	return c
 }
 
